@@ -239,6 +239,8 @@ class Sig:
         if self.owner is None:
             return "%s::%s" % (self.module, self.name)
         o = self.owner[1] if self.owner[0] == "n" else "(tuple)"
+        if self.inherited and self.trait is not None:
+            o = self.trait[1]       # default method of a trait: one body whatever the implementing type
         return "%s::%s::%s" % (self.module, short(o), self.name)
 
     def ident(self):
